@@ -5,7 +5,7 @@
    for token, HTML and manpage text byte for byte.  render_markdown is not modelled. *)
 From Coq Require Import List NArith Bool.
 From BpafModel Require Import Docs.
-From BpafLemmas Require Import RoffLaws HtmlLaws HelpItems.
+From BpafLemmas Require Import RoffLaws HtmlLaws HelpItems BalLaws.
 Import ListNotations.
 
 (* ---- manpage: for EVERY document (any help text, name, metavariable, title) and any `.TH`
@@ -60,12 +60,54 @@ Theorem C16_html_well_nested_partial :
 Proof. exact html_well_nested. Qed.
 Print Assumptions C16_html_well_nested_partial.
 
+(* ---- the documents bpaf builds ARE balanced, for every parser definition whose own documents (help
+   texts, group titles, custom usage, description, header, footer: `odok`) are -- and the Doc API can build
+   no others.  So the hypothesis of the theorem above is met by the HTML document of every parser, the
+   renderers `succeed for every parser` as far as the document is concerned (section extraction never runs
+   out of fuel, the group loop of write_help_item_groups terminates), and the same holds for the manpage
+   document and for --help *)
+Theorem C16_html_document_total_balanced :
+  forall env app o, odok o ->
+  exists d, collect_html env app (ometa_of o) (oinfo_of o) = Some d /\ bal [] d = true.
+Proof. exact html_document_total_balanced. Qed.
+Print Assumptions C16_html_document_total_balanced.
+
+Theorem C16_manpage_document_total_balanced :
+  forall env app o, odok o ->
+  exists d, manpage_doc env app (ometa_of o) (oinfo_of o) = Some d /\ bal [] d = true.
+Proof. exact manpage_document_total_balanced. Qed.
+Print Assumptions C16_manpage_document_total_balanced.
+
+(* ---- HTML, full statement: for every parser, every tag of the generated page is closed by its own kind *)
+Theorem C16_html_well_nested :
+  forall env app o full d evs, odok o ->
+  collect_html env app (ometa_of o) (oinfo_of o) = Some d ->
+  render_html_events full d = Some evs -> wn [] evs = Some [].
+Proof. exact html_well_nested_parser. Qed.
+Print Assumptions C16_html_well_nested.
+
 (* ---- completeness: each section lists, through the very function --help uses, exactly the
    visible leaves of its command level (C12_items_exact); restated for the section metadata *)
 Theorem C16_section_items_exact :
   forall p no_subsections, reals (append_go (meta_of p) no_subsections []) = vis p.
 Proof. exact help_items_exact. Qed.
 Print Assumptions C16_section_items_exact.
+
+(* non-vacuity of `odok`: a subcommand tree with help texts, a group title and a styled help Doc that
+   embeds another one *)
+Example C16_example_odok :
+  let t (s : list N) : doc := [TText SText s] in
+  let sub := Options (PGroupHelp (PFlag (mkNamed [120%N] [] [] (Some (t [104%N]))) VUnit (Some VUnit)) (t [71; 10; 98]%N))
+                     default_info in
+  let o := Options (PCon (PCons (PArg (mkNamed [] [[110; 97]%N] [] (Some ([TText SText [97%N]; TStart BInlineBlock;
+                                         TText SLiteral [98%N]; TEnd BInlineBlock]))) [78%N] TyString false)
+                         (PCons (PCmd [99%N] [] [] (Some (t [99%N])) false sub) PNil))) default_info in
+  odok o /\ exists d, collect_html (fun _ => None) [97%N] (ometa_of o) (oinfo_of o) = Some d /\ bal [] d = true.
+Proof.
+  cbv zeta. split.
+  - cbn. repeat split; try exact I; try (intros st; reflexivity).
+  - eexists. split; vm_compute; reflexivity.
+Qed.
 
 (* non-vacuity: a help text that begins with `.so` on its second line, inside a block *)
 Example C16_example :
